@@ -9,3 +9,11 @@ TRUSTED = []
 
 def units(tier):
     return sqlunits.units_for("C09") + handlers.units_for("C09")
+
+
+def extras(tier, seed):
+    from pyvc.bounded import run_bounded
+
+    return [
+        run_bounded('C09', 'c09_bloom.py', 'C09/bounded/bloom-no-false-negatives', tier, seed),
+    ]
